@@ -277,7 +277,46 @@ def _pct(draw, p):
 
 
 @st.composite
+def _redefine_template(draw):
+    """A report that was used (reported at least once) is deleted - delete-all, delete-one or unlinked first - and defined
+    again under the SAME id with a DIFFERENT variable list, linked, enabled and reported again: the second report must
+    carry the variables of the second definition."""
+    rk = draw(st.sampled_from(RPT_DOM))
+    ck = draw(st.sampled_from(CE_KNOWN))
+    va = draw(st.lists(st.sampled_from(VID_SETTABLE), min_size=1, max_size=3, unique=True))
+    vb = draw(st.lists(st.sampled_from(VID_SETTABLE), min_size=1, max_size=3, unique=True).filter(lambda v: v != va))
+    did = lambda: draw(st.sampled_from(DATAIDS))  # noqa: E731
+    see = lambda: ({"op": "s6f15", "c": _typed(draw, ck)} if draw(st.booleans()) else {"op": "trigger", "ceids": [ck]})  # noqa: E731
+    ops = [
+        {"op": "define", "dataid": did(), "reports": [{"r": _typed(draw, rk), "v": [_typed(draw, v) for v in va]}]},
+        {"op": "link", "dataid": did(), "links": [{"c": _typed(draw, ck), "r": [_typed(draw, rk)]}]},
+        {"op": "enable", "ceed": True, "ceids": [_typed(draw, ck)]},
+        see(),
+    ]
+    how = draw(st.sampled_from(["delete-all", "delete-all", "delete-one", "unlink+delete-one"]))
+    if how == "delete-all":
+        ops.append({"op": "define", "dataid": did(), "reports": []})
+    else:
+        if how.startswith("unlink"):
+            ops.append({"op": "link", "dataid": did(), "links": [{"c": _typed(draw, ck), "r": []}]})
+        ops.append({"op": "define", "dataid": did(), "reports": [{"r": _typed(draw, rk), "v": []}]})
+    ops += [
+        {"op": "define", "dataid": did(), "reports": [{"r": _typed(draw, rk), "v": [_typed(draw, v) for v in vb]}]},
+        {"op": "link", "dataid": did(), "links": [{"c": _typed(draw, ck), "r": [_typed(draw, rk)]}]},
+        {"op": "enable", "ceed": True, "ceids": [_typed(draw, ck)]},
+        see(),
+    ]
+    if draw(st.booleans()):
+        vid = draw(st.sampled_from(vb))
+        ops += [{"op": "set", "vid": vid, "value": _value_for(draw, vid)}, see()]
+    return ops
+
+
+@st.composite
 def case_strategy(draw, max_ops=15):
+    if draw(st.sampled_from([0, 0, 0, 0, 0, 0, 0, 1])):
+        tail = draw(case_strategy(max_ops=4))["ops"] if draw(st.booleans()) else []
+        return {"ops": draw(_redefine_template()) + tail, "template": "redefine-after-use"}
     n = draw(st.integers(1, max_ops))
     gs = _GenState()
     ops = []
@@ -888,6 +927,8 @@ def run_task(name, kw, ctx):
         obs = {}
         f = run_case(case, obs)
         classes = sorted(obs.get("classes", ()))
+        if case.get("template"):
+            classes.append("template:" + case["template"])
         if f is not None:
             classes.append("failure:" + f.bucket)
         ctx.case(case, nontrivial(obs), classes)
